@@ -299,3 +299,31 @@ def receiver_texts(func_node, call):
             outs.add(v + ('.' + rest if rest else ''))
     return outs
 
+
+def late_bound_closures(root):
+    """[(closure node, loop variable)]: lambdas / nested functions created inside a `for` loop or a comprehension that read the loop variable as a free
+    name (not through a default argument or a parameter) and are not called on the spot - by the time they run the variable may already denote a
+    later element (for a comprehension: always the last one)"""
+    out = []
+    for n in ast.walk(root):
+        targets, scope = [], []
+        if isinstance(n, ast.For):
+            targets, scope = [n.target], n.body
+        elif isinstance(n, (ast.ListComp, ast.SetComp, ast.GeneratorExp, ast.DictComp)):
+            targets = [g.target for g in n.generators]
+            scope = [n.elt] if not isinstance(n, ast.DictComp) else [n.key, n.value]
+        names = {x.id for t in targets for x in ast.walk(t) if isinstance(x, ast.Name)}
+        if not names:
+            continue
+        called_on_spot = {id(c.func) for st in scope for c in ast.walk(st) if isinstance(c, ast.Call)}
+        for st in scope:
+            for c in ast.walk(st):
+                if isinstance(c, (ast.Lambda, ast.FunctionDef)) and id(c) not in called_on_spot:
+                    a = c.args
+                    params = {x.arg for x in a.posonlyargs + a.args + a.kwonlyargs} | ({a.vararg.arg} if a.vararg else set()) | ({a.kwarg.arg} if a.kwarg else set())
+                    body = [c.body] if isinstance(c, ast.Lambda) else c.body
+                    free = {x.id for b in body for x in ast.walk(b) if isinstance(x, ast.Name) and isinstance(x.ctx, ast.Load)} - params
+                    for v in sorted(free & names):
+                        out.append((c, v))
+    return out
+
